@@ -990,6 +990,13 @@ func (self *Metadata) uncheckedReset() error {
 // started the job locally or queued it remotely.
 func (self *Metadata) restartQueuedLocal() error {
 	if self.exists(QueuedLocally) {
+		if state, _ := self.getState(); state == Complete {
+			// The job was started and ran to completion while mrp was
+			// unable to remove the sentinel (it was stopped or killed
+			// right after starting the process).  There is nothing to
+			// run again.
+			return self.remove(QueuedLocally)
+		}
 		if err := self.uncheckedReset(); err == nil {
 			util.PrintInfo("runtime", "(reset-running)   %s", self.fqname)
 			return nil
